@@ -1928,7 +1928,7 @@ func (r stack) assembleStringStack(str []string, ot string, oc stackType) string
 	builder := newStringBuilder()
 
 	if r.positive(lonce) {
-		if oc != list {
+		if oc != list && len(str) > 0 {
 			builder.WriteString(ot)
 		}
 		for _, val := range str {
